@@ -26,6 +26,7 @@ import time
 if __name__ == '__main__':
     sys.path.insert(0, os.path.dirname(os.path.dirname(os.path.abspath(__file__))))
 
+from common import REPO as common_REPO
 from props import c09_docs as D
 from props.c09_docs import MAIN, tget, tset, tdel, rename_key
 
@@ -177,29 +178,29 @@ def corpus_cases(scratch):
     pwn = os.path.join(scratch, 'python-tag-was-executed')
     cases = [
         # --- known deviation classes, hand-minimised (expected key in the last column)
-        ('S5-scalar-root', {MAIN: '5\n'}, 2, 'S5-non-mapping-root-assert'),
-        ('S5-list-root', {MAIN: '- a\n'}, 2, 'S5-non-mapping-root-assert'),
-        ('S5-empty-file', {MAIN: ''}, 2, 'S5-non-mapping-root-assert'),
-        ('S5-null-root', {MAIN: '~\n'}, 2, 'S5-non-mapping-root-assert'),
+        ('S5-scalar-root', {MAIN: '5\n'}, 2, '=cpe-all'),
+        ('S5-list-root', {MAIN: '- a\n'}, 2, '=cpe-all'),
+        ('S5-empty-file', {MAIN: ''}, 2, '=cpe-all'),
+        ('S5-null-root', {MAIN: '~\n'}, 2, '=cpe-all'),
         ('S7-int-key-root-v2', {MAIN: "version: '2.2'\n1: 2\n"}, 2, None),
         ('S7-int-key-env', {MAIN: T3 + DST1 + '  environment: {1: a}\n'}, 3, 'S7-non-string-key-TypeError'),
         ('S7-yaml11-bool-key', {MAIN: T3 + DST1 + '  environment: {no: 1}\n'}, 3, 'S7-non-string-key-TypeError'),
         ('S7-int-key-dsts', {MAIN: T3 + '    data-stream-types: {1: {}}\n'}, 3, 'S7-non-string-key-TypeError'),
         ('S4-dynamic-array-no-element', {MAIN: H + mini3 + '                - a: {field-type: {class: dynamic-array}}\n'}, 3,
-         'S4-dynamic-array-KeyError'),
+         '=cpe'),
         ('S4-dynamic-array-element-class-map',
          {MAIN: T3 + '    data-stream-types:\n      d:\n        packet-context-field-type-extra-members:\n'
                      '          - a: {field-type: {class: dynamic-array, element-field-type: {class: {}}}}\n'
-                     '        event-record-types: {e: ' + PL + '}\n'}, 3, 'S4-dynamic-array-TypeError'),
+                     '        event-record-types: {e: ' + PL + '}\n'}, 3, '=cpe'),
         ('S4-dynamic-array-element-alignment-0',
          {MAIN: H + mini3 + '                - a: {field-type: {class: dynamic-array, element-field-type: '
-                            '{class: uint, size: 8, alignment: 0}}}\n'}, 3, 'S4-dynamic-array-AssertionError'),
+                            '{class: uint, size: 8, alignment: 0}}}\n'}, 3, '=cpe'),
         ('S4-dynamic-array-element-size-true',
          {MAIN: H + mini3 + '                - a: {field-type: {class: dynamic-array, element-field-type: {class: uint, size: true}}}\n'}, 3,
-         'S4-dynamic-array-does-not-compile'),
+         '=cpe'),
         ('S14-static-array-no-length',
          {MAIN: H + mini3 + '                - a: {field-type: {class: static-array, element-field-type: {class: str}}}\n'}, 3,
-         'S14-static-array-KeyError-length'),
+         '=cpe'),
         ('S15-deep-flow-seq', {MAIN: '[' * 1000 + ']' * 1000 + '\n'}, 2, 'S15-deep-nesting-RecursionError'),
         ('S15-deep-flow-seq-v3', {MAIN: H + 'trace: ' + '[' * 1000 + ']' * 1000 + '\n'}, 3, 'S15-deep-nesting-RecursionError'),
         ('S15-deep-flow-map', {MAIN: '{a: ' * 1000 + '1' + '}' * 1000 + '\n'}, 2, 'S15-deep-nesting-RecursionError'),
@@ -267,26 +268,26 @@ def corpus_cases(scratch):
          {MAIN: V2.replace('trace: {byte-order: le}', 'trace: {byte-order: le, packet-header-type: {class: struct}}') + V2EV}, 2,
          'S8-v3_features_node_from_v2_ft_node'),
         ('S18-size-float', {MAIN: H + mini3 + '                - a: {field-type: {class: uint, size: 8.0}}\n'}, 3,
-         'S18-integral-float-does-not-compile'),
+         'S19-integral-float-does-not-compile'),
         ('S18-alignment-float', {MAIN: H + mini3 + '                - a: {field-type: {class: uint, size: 8, alignment: 8.0}}\n'}, 3,
-         'S18-integral-float-TypeError-_validate_alignment'),
+         'S19-integral-float-TypeError-_validate_alignment'),
         ('S18-enum-mapping-float',
          {MAIN: H + mini3 + '                - a: {field-type: {class: uenum, size: 8, mappings: {A: [1.0]}}}\n'}, 3,
-         'S18-integral-float-AssertionError-_create_enum_ft'),
+         'S19-integral-float-AssertionError-_create_enum_ft'),
         ('S18-type-id-size-float',
          {MAIN: T3 + '    data-stream-types:\n      d:\n        $features: {event-record: {type-id-field-type: {class: uint, size: 8.0}}}\n'
-                     '        event-record-types: {e: ' + PL + '}\n'}, 3, 'S18-integral-float-TypeError-_create_dst'),
+                     '        event-record-types: {e: ' + PL + '}\n'}, 3, 'S19-integral-float-TypeError-_create_dst'),
         ('S18-dst-id-size-float',
          {MAIN: T3 + '    $features: {data-stream-type-id-field-type: {class: uint, size: 8.0}}\n'
                      '    data-stream-types: {d: {event-record-types: {e: ' + PL + '}}}\n'}, 3,
-         'S18-integral-float-TypeError-_create_trace_type'),
+         'S19-integral-float-TypeError-_create_trace_type'),
         ('S18-v2-size-float', {MAIN: mini2 + '              a: {class: int, size: 8.0}\n'}, 2, None),   # accepted, `size = 8.0;` in the metadata
         ('S18-v2-enum-value-float',
          {MAIN: mini2 + '              a: {class: enum, value-type: {class: int, size: 8}, members: [{label: A, value: 1.0}]}\n'}, 2,
-         'S18-integral-float-AssertionError-_conv_enum_ft_node'),
+         'S19-integral-float-AssertionError-_conv_enum_ft_node'),
         ('member-name-dash', {MAIN: H + mini3 + '                - a-b: {field-type: {class: uint, size: 8}}\n'}, 3,
-         'NEW-member-name-pattern-does-not-compile'),
-        ('member-name-dash-unvalidated', {MAIN: H + mini3 + '                - a-b: 5\n'}, 3, 'NEW-member-name-pattern-TypeError'),
+         '=cpe'),
+        ('member-name-dash-unvalidated', {MAIN: H + mini3 + '                - a-b: 5\n'}, 3, '=cpe'),
         ('member-keyword-int', {MAIN: H + mini3 + '                - int: {field-type: {class: uint, size: 8}}\n'}, 3, None),
         ('yaml-complex-key', {MAIN: '[a]: 1\n'}, 2, 'NEW-TypeError-_yaml_load'),
         ('yaml-complex-key-v3', {MAIN: H + '{a: 1}: 1\n'}, 3, 'NEW-TypeError-_yaml_load'),
@@ -642,11 +643,11 @@ def exc_key(api, r, res):
     if et == 'KeyError' and fn == '_create_static_array_ft' and "'length'" in msg:
         return 'S14-static-array-KeyError-length'
     if res.get('attrib') == 'S18':
-        return 'S18-integral-float-%s-%s' % (et, fn)
+        return 'S19-integral-float-%s-%s' % (et, fn)
     if is_post_validation_site(site):
         a = res.get('attrib')
         if a == 'S18':
-            return 'S18-integral-float-%s-%s' % (et, fn)
+            return 'S19-integral-float-%s-%s' % (et, fn)
         if a == 'S4':
             return 'S4-dynamic-array-KeyError' if et == 'KeyError' else 'S4-dynamic-array-%s' % et
         if a == 'S14':
@@ -659,7 +660,7 @@ def exc_key(api, r, res):
     return 'NEW-%s-%s' % (et, fn or inner)
 
 
-HOLE_KEY = {'S18': 'S18-integral-float-does-not-compile', 'S4': 'S4-dynamic-array-does-not-compile',
+HOLE_KEY = {'S18': 'S19-integral-float-does-not-compile', 'S4': 'S4-dynamic-array-does-not-compile',
             'S14': 'S14-static-array-does-not-compile', 'MEMBER': 'NEW-member-name-pattern-does-not-compile'}
 
 
@@ -775,7 +776,7 @@ def _cli(task):
         D.write_case(d, files)
         os.makedirs(outd)
         env = dict(os.environ)
-        env['PYTHONPATH'] = '/repo'
+        env['PYTHONPATH'] = common_REPO
         env['PYTHONWARNINGS'] = 'ignore'
         inc = ['--include-dir=' + d] + (['--include-dir=' + task['incdir']] if task.get('incdir') else [])
         res = {'id': task['id']}
@@ -950,7 +951,14 @@ def run(ctx):
             corpus_report[t['name']] = {'from_file': oc, 'effective': (r.get('effective') or {}).get('outcome'),
                                         'major_version': (r.get('major_version') or {}).get('outcome'),
                                         'deviations': [k for k, _ in cd]}
-            if t['expect'] and t['expect'] not in [k for k, _ in cd]:
+            if t['expect'].startswith('=cpe'):
+                # a defect repaired in /repo: the document must now be refused with a configuration error
+                bad = oc != 'cpe' or (t['expect'] == '=cpe-all' and any(
+                    (r.get(a) or {}).get('outcome') not in (None, 'cpe') for a in ('effective', 'major_version')))
+                if bad or cd:
+                    ctx.violation('regression of a repaired defect: corpus document %s must be refused with a configuration error, got %s' % (
+                        t['name'], corpus_report[t['name']]), {'name': t['name'], 'files': t['files'], 'outcome': corpus_report[t['name']]})
+            elif t['expect'] and t['expect'] not in [k for k, _ in cd]:
                 ctx.notes.append('C10 corpus drift: %s expected %s, got %s' % (t['name'], t['expect'], [k for k, _ in cd] or oc))
         for key, what in cd:
             e = devs.setdefault(key, {'count': 0, 'what': what, 'min': None, 'by_kind': {}})
